@@ -34,6 +34,9 @@ DEFINITE = (
     "loop invariant", "cannot show invariant", "could not prove termination", "assertion failure", "arithmetic",
     "call to non-static", "failed precondition", "might panic", "possible overflow", "postcondition", "precondition",
 )
+# anything else Verus reports after type checking is a definite verdict on a proof obligation
+UNDECIDED_KINDS = ("rlimit", "resource limit", "timed out", "timeout", "not supported", "unsupported", "does not yet support",
+                   "cannot use function", "internal error", "panicked", "solver")
 PANIC_KINDS = ("possible arithmetic underflow/overflow", "possible division by zero", "unreachable", "index out of bounds",
                "precondition not satisfied")
 
@@ -171,9 +174,7 @@ def run_unit(unit, rlimit=30, only_fn=None):
     failed = [n for n, d in r.functions.items() if not d["success"] and n not in canaries]
     if real_errors or failed:
         for e in real_errors:
-            if "rlimit" in e["kind"].lower() or "resource limit" in e["kind"].lower() or "timed out" in e["kind"].lower():
-                e["undecided"] = True
-            elif not any(k in e["kind"] for k in DEFINITE):
+            if any(k in e["kind"].lower() for k in UNDECIDED_KINDS):
                 e["undecided"] = True
         r.status = "failed"
     return r
